@@ -244,6 +244,35 @@ def infeasible_items(tier):
     add("macro self-recursive", text="macro boom [ ${boom} ${boom} ]\n" + base.replace("effort 90min", "effort 90min ${boom}", 1))
     add("macro self-recursive single", text="macro loop [ ${loop} ]\n" + base.replace("effort 90min", "${loop}", 1))
     add("macro mutual", text="macro ping [ ${pong} ]\nmacro pong [ ${ping} ${ping} ]\n" + base.replace("effort 90min", "${ping}", 1))
+    # recursion that neither reaches a fixed point nor grows fast: rings of length 2 and 3 that reproduce themselves exactly, a
+    # self-reference next to other text; called in statement position, inside a string, inside a comment, defined after use
+    ring2 = "macro ping [ ${pong} ]\nmacro pong [ ${ping} ]\n"
+    ring3 = "macro ra [ ${rb} ]\nmacro rb [ ${rc} ]\nmacro rc [ ${ra} ]\n"
+    grow = "macro more [ priority 600 ${more} ]\n"
+    for nm, defs, call in (("ring2", ring2, "${ping}"), ("ring3", ring3, "${ra}"), ("selfgrow", grow, "${more}")):
+        add(f"macro {nm} statement", text=defs + base.replace("effort 90min", "effort 90min " + call, 1))
+        add(f"macro {nm} in string", text=defs + base.replace('"a"', '"a ' + call + '"', 1))
+        add(f"macro {nm} in comment", text=defs + base.replace("effort 90min", "effort 90min # " + call, 1))
+        add(f"macro {nm} defined after use", text=base.replace("effort 90min", "effort 90min " + call, 1) + defs)
+    # project durations in every unit and with decimals; dates given by (known and unknown) macro references
+    for dur in ("36h", "90min", "1.5w", "0.5m", "2.5d", "1y", "1.5y", "0d"):
+        add(f"project duration +{dur}", {"dur": dur, "resources": R, "tasks": [T("a"), T("b", deps=["a"])]})
+    add("start ${unknown}", text=base.replace("effort 90min", "effort 90min start ${nosuch}", 1))
+    add("start ${projectstart}", text=base.replace("effort 90min", "effort 90min start ${projectstart}", 1))
+    add("start ${now}", text=base.replace("effort 90min", "effort 90min start ${now}", 1))
+    # contradictory or barely-outside typed dates
+    for alap in (False, True):
+        for st, en in (("2025-01-10", "2025-01-08"), ("2025-01-10", "2025-01-10"), ("2025-01-08", "2025-01-10"), ("2025-01-27-00:30", None),
+                       (None, "2025-01-27-00:30"), ("2025-01-05-23:30", None), (None, "2025-01-05-23:30"), ("2025-01-27", None), (None, "2025-01-06")):
+            for ms in (True, False):
+                t = {"id": "m", "milestone": True} if ms else {"id": "m", "effort": 60, "alloc": ["r1"]}
+                if st:
+                    t["start"] = st
+                if en:
+                    t["end"] = en
+                add(f"typed dates {st}..{en} milestone={ms} alap={alap}", {"alap": alap, "resources": R, "tasks": [t, T("b", deps=["m"])]})
+    for eff in ("1000000y", "10000y", "20y"):
+        add(f"effort {eff}", {"resources": R, "tasks": [{"id": "a", "effort": eff, "alloc": ["r1"]}, T("b", deps=["a"])]})
     add("macro missing args", text="macro two [ effort ${1} allocate ${2} ]\n" + base.replace("effort 90min", "${two}", 1))
     add("macro undefined", text=base.replace("effort 90min", "${nosuch}", 1))
     add("macro unterminated", text="macro bad [ effort 1h \n" + base)
